@@ -421,6 +421,8 @@ class FnFacts:
             if not has_len:
                 continue
             gnames = names_in(g.test)
+            # a bound computed just before the guard (min_size = n * k)
+            gnames = gnames | closure_names(self.fn.node, gnames, self.defs)
             if not set(need_names) <= gnames:
                 continue
             # rebinding between guard and site?
@@ -1050,7 +1052,58 @@ def _classify(scope, ff, fn, node, t):
             idx_names = {n.id for n in ast.walk(sl) if isinstance(n, ast.Name)}
             trusted_idx = bool(idx_names) and not (idx_names & t) and \
                 not scope.expr_tainted(fn, sl)
-            if not only_slices and not trusted_idx:
+            # constant positions on an axis whose length a literal reshape
+            # fixed: a[:, 0] of a.reshape(n, 2)
+            const_ok = False
+            elts_ = list(sl.elts) if isinstance(sl, ast.Tuple) else [sl]
+            if all(slice_like(e) or const_int(e) is not None for e in elts_) \
+                    and any(const_int(e) is not None for e in elts_):
+                dims = None
+                for d in ff.defs.get(base.id, []):
+                    v = d.value
+                    if isinstance(v, ast.Call) and \
+                            isinstance(v.func, ast.Attribute) and \
+                            v.func.attr == "reshape":
+                        a_ = v.args[0].elts if len(v.args) == 1 and \
+                            isinstance(v.args[0], (ast.Tuple, ast.List)) \
+                            else v.args
+                        dims = [const_int(x) for x in a_]
+                if dims and len(dims) >= len(elts_):
+                    const_ok = all(
+                        const_int(e) is None or (
+                            dims[k] is not None and
+                            -dims[k] <= const_int(e) < dims[k])
+                        for k, e in enumerate(elts_))
+            # an index array that was filtered by a mask comparing it with
+            # the length of the indexed array: idx = off[mask], mask built
+            # from `off + k <= len(a)`; the arithmetic inside the mask is not
+            # verified (declared undecided clause), its presence is
+            masked = False
+            if idx_names and not only_slices:
+                def mask_bounds(nm, depth=0):
+                    for d in ff.defs.get(nm, []):
+                        v = d.value
+                        if isinstance(v, ast.Subscript) and \
+                                isinstance(v.slice, ast.Name):
+                            for md in ff.defs.get(v.slice.id, []):
+                                if md.value is None:
+                                    continue
+                                for c_ in ast.walk(md.value):
+                                    if isinstance(c_, ast.Compare) and any(
+                                            isinstance(o_, (ast.Lt, ast.LtE))
+                                            for o_ in c_.ops) and (
+                                                "len(%s)" % base.id in norm(c_)
+                                                or "%s.size" % base.id
+                                                in norm(c_)
+                                                or "%s.shape" % base.id
+                                                in norm(c_)):
+                                        return True
+                    return False
+                masked = all(mask_bounds(nm) or nm not in t
+                             for nm in idx_names) and any(
+                    mask_bounds(nm) for nm in idx_names)
+            if not only_slices and not trusted_idx and not const_ok \
+                    and not masked:
                 return ("index", ["IndexError"], None, norm(node)[:90])
         return None
     if isinstance(node, ast.BinOp) and isinstance(node.op, (ast.FloorDiv,
@@ -1105,7 +1158,8 @@ def _reshape_discharge(scope, ff, node, operand, depth=0, bind=None):
     # construction; fine when the shape's product is the same expression
     src_ = operand
     if isinstance(src_, ast.Name):
-        ds_ = [d for d in ff.defs.get(src_.id, []) if d.kind != "param"]
+        ds_ = [d for d in ff.defs.get(src_.id, []) if d.kind != "param"
+               and d.value is not node]
         if len(ds_) == 1 and ds_[0].value is not None and \
                 ds_[0].index is None:
             src_ = ds_[0].value
